@@ -2,6 +2,8 @@
 import os
 import shutil
 
+from hypothesis import strategies as st
+
 from vlib import e2e, gen_run, runner
 from vlib import spec as vspec
 
@@ -114,10 +116,32 @@ def run_case(case, acc, wd, second_run=True):
     return nt, classes, r
 
 
+@st.composite
+def damaged_case(draw):
+    """Ill-formed inputs (a deleted / duplicated / swapped child, an atom where a list is due):
+    some mutator may fail at such a node - the others must still be asked about it."""
+    from vlib import gen_sexpr, model, refreader
+    base = gen_run.script(1, 4).map(lambda t: refreader.read(t, keep_comments=False))
+    trees, ops = draw(gen_sexpr.damaged(base, 3))
+    text = model.render_list(trees) + '\n'
+    c = draw(gen_run.run_case(strategies=('hierarchical', 'hierarchical', 'hybrid'), formats=('default', ), mutator_subsets=False,
+                              kinds=['monotone', 'hash', 'hash', 'mixed'], max_asserts=1))
+    c['text'] = text
+    c['spec'] = draw(gen_run.spec_for(text, kind=draw(st.sampled_from(['monotone', 'hash', 'mixed']))))
+    c['spec_cc'] = None
+    c['source'] = 'damaged'
+    return c
+
+
 def shard(ctx, acc):
     total = 130 if ctx.quick else 1600
-    strat = gen_run.run_case(strategies=('hierarchical', 'hybrid'), formats=('default', ),
-                             mutator_subsets=True, kinds=['monotone', 'hash', 'hash', 'mixed'], mixed_inputs=True)
+    strat = st.one_of(gen_run.run_case(strategies=('hierarchical', 'hybrid'), formats=('default', ),
+                                       mutator_subsets=True, kinds=['monotone', 'hash', 'hash', 'mixed'], mixed_inputs=True),
+                      gen_run.run_case(strategies=('hierarchical', 'hybrid'), formats=('default', ),
+                                       mutator_subsets=True, kinds=['monotone', 'hash', 'hash', 'mixed'], mixed_inputs=True),
+                      gen_run.run_case(strategies=('hierarchical', 'hybrid'), formats=('default', ),
+                                       mutator_subsets=True, kinds=['monotone', 'hash', 'hash', 'mixed'], mixed_inputs=True),
+                      damaged_case(), damaged_case())
     n = [0]
 
     def body(case):
